@@ -34,6 +34,9 @@ static int in_nest;
 
 /* reply context the events carry while `rc on` is in force: it swallows the replies (what is replied is not part of
  * C11; that the dispatcher behaves the same with and without a reply context is) */
+/* id the event structure of a message event already carries when it is emitted (op stale: an event structure that
+ * is used again); the first message byte decides, not this */
+static uintptr_t stale_id;
 static int rc_on;
 static unsigned long rc_count;
 #ifdef __cplusplus
